@@ -75,6 +75,9 @@ def run(ctx):
     jobs = []
     bshapes = proc.boolean_shapes()
     qshapes = proc.quantified_shapes()
+    if ctx.tier == "thorough":
+        qshapes = proc.in_contexts(qshapes)
+        bshapes = proc.in_contexts(bshapes, limit=40)
     for sh in bshapes:
         jobs.append(("nnf", sh))
         jobs.append(("aig", sh))
